@@ -11,7 +11,7 @@ from vlib.harness import V, derive_seed, run_shards
 from vlib.hjmodel import ACCEPT, REJECT, UNSPEC, LEVEL, TRIALS
 
 PROPERTY = 'C02'
-AMBIENT_PASS = True        # the same search once more under unusual ambient settings (vlib.run.AMBIENT_SETTINGS)
+AMBIENT_PASS = 'quick'       # the same search once more under unusual ambient settings (vlib.run.AMBIENT_SETTINGS)
 RULE = ('call histories over {add(bib), bar(up/equal/down by 0.05), cleared, failed, passed, retired} x every bib, legal or '
         'not: (i) breadth-first enumeration of ALL call sequences to a depth bound from the state after adding n athletes, '
         'de-duplicated by full internal state (n=2: depth 9 quick / 11 thorough, n=3: 6 / 8, n=1 and n=4 shallower; at most 4 '
